@@ -101,6 +101,32 @@ def run(cx):
     # ---- V: effect table against recorded VM steps
     steps_path = cx.path("steps.ndjson")
     sub = cases[: (600 if cx.quick() else 6000)]
+    # plus every control skeleton of Grammar.tla (returns / breaks / continues from inside nested loops and switches,
+    # also inside called functions and callbacks): the effect table must hold on each of their executed steps
+    skel_asts = langlib.gen_family(cx, "skeletons", 3)
+    sk_in = cx.path("skel.asts.ndjson")
+    vlib.write_ndjson(sk_in, [{"id": 1000000 + i, "ast": a, "hoist": []} for i, a in enumerate(skel_asts)])
+    sk_out = cx.path("skel.cases.ndjson")
+    cx.run([lang, "render", "-in", sk_in, "-out", sk_out, "-noobs"])
+    skel_cases = vlib.read_ndjson(sk_out)
+    for c in skel_cases:
+        by_id[c["id"]] = c
+    sub = sub + [{"id": c["id"], "src": c["src"]} for c in skel_cases]
+    # the skeletons' code objects also go through the all-paths exploration
+    skc = cx.path("skel.codes.ndjson")
+    cx.run([bc, "codes", "-in", sk_out, "-out", skc])
+    srows2 = []
+    for r in vlib.read_ndjson(skc):
+        if r["res"]["k"] == "ok":
+            ncompiled += 1
+            for c in r["res"]["codes"]:
+                srows2.append({"pid": r["id"], "cid": c["id"], "root": c["root"], "ins": c["ins"]})
+    rows += srows2
+    for r in parallel_tlc(cx, "BytecodeMC", "VERIF_CODES", langlib.shard_cases(cx, srows2, nsh, "skcodes"), "skmc"):
+        for ln in r.lines:
+            m = re.match(r'^<<"LEAK", (\d+), "([^"]*)", "([^"]*)", (-?\d+), (-?\d+)>>$', ln.strip())
+            if m:
+                leaks.setdefault(int(m.group(1)), []).append((m.group(2), m.group(3), int(m.group(4)), int(m.group(5))))
     sub_path = cx.path("sub.ndjson")
     vlib.write_ndjson(sub_path, sub)
     cx.run([bc, "steps", "-in", sub_path, "-out", steps_path, "-max", "1500"])
@@ -121,9 +147,9 @@ def run(cx):
     badsteps = {}
     for r in sresults:
         for ln in r.lines:
-            m = re.match(r'^<<"BADSTEP", (\d+), "([^"]*)", (.*)>>$', ln.strip())
+            m = re.match(r'^<<"BADSTEP", (\d+), "([^"]*)", (\d+)>>$', ln.strip())
             if m:
-                badsteps.setdefault(int(m.group(1)), []).append((m.group(2), m.group(3)[:300]))
+                badsteps.setdefault(int(m.group(1)), []).append((m.group(2), "step %s" % m.group(3)))
     cx.log("dynamic: %d programs, %d steps, %d opcodes exercised, %d programs with bad steps" % (
         len(srows), nsteps, len(opcodes_seen), len(badsteps)))
 
